@@ -3189,6 +3189,11 @@ handle_request(coap_context_t *context, coap_session_t *session, coap_pdu_t *pdu
       /* and do not pass on to the upper layers */
       return;
     }
+    /*
+     * The Hop-Limit of the stored request was checked and decremented when
+     * the request was received.
+     */
+    skip_hop_limit_check = 1;
   }
 #endif /* COAP_ASYNC_SUPPORT */
 
